@@ -151,6 +151,11 @@ func (fc *FnCtx) eval(env *Env, e *Expr) (Val, error) {
 		if init, ok := fc.ghostInit[name]; ok {
 			return Val{T: init}, nil
 		}
+		// a log field of a registered `track` name that this function never calls keeps its initial (zero) value; its
+		// sort comes from the tracked function's signature. (Any other unknown ghost stays an error: typo guard.)
+		if srt, ok := fc.g.trackedFieldSort(name); ok {
+			return Val{T: zeroOf(srt)}, nil
+		}
 		return Val{}, fmt.Errorf("ghost %s is never logged in this function", name)
 	case "gvar":
 		return Val{T: fc.gvarGet(env.cur, e.Name), Typ: intT}, nil
@@ -1197,4 +1202,37 @@ func replaceSymbol(t, from, to string) string {
 		i++
 	}
 	return b.String()
+}
+
+// trackedFieldSort: name is "#<track>.argN" or "#<track>.retN" for a `track <static function> as <track>` directive.
+func (g *Gen) trackedFieldSort(name string) (string, bool) {
+	dot := strings.LastIndex(name, ".")
+	if !strings.HasPrefix(name, "#") || dot < 0 {
+		return "", false
+	}
+	tn, field := name[1:dot], name[dot+1:]
+	for key, n := range g.tracked {
+		fn := g.funcs[key]
+		if n != tn || fn == nil {
+			continue
+		}
+		var idx int
+		if len(field) < 4 {
+			return "", false
+		}
+		if _, err := fmt.Sscanf(field[3:], "%d", &idx); err != nil {
+			return "", false
+		}
+		switch field[:3] {
+		case "arg":
+			if idx < len(fn.Params) {
+				return g.ti.sortOf(fn.Params[idx].Type()), true
+			}
+		case "ret":
+			if idx < fn.Signature.Results().Len() {
+				return g.ti.sortOf(fn.Signature.Results().At(idx).Type()), true
+			}
+		}
+	}
+	return "", false
 }
